@@ -7,6 +7,9 @@ import (
 	"bytes"
 	"encoding/hex"
 	"fmt"
+	govtypes "github.com/pokt-network/posmint/x/gov/types"
+	postypes "github.com/pokt-network/posmint/x/pos/types"
+	"math/big"
 
 	tmtypes "github.com/tendermint/tendermint/types"
 	"pgregory.net/rapid"
@@ -54,6 +57,32 @@ func sigDepthOK(limit uint64, pk crypto.PublicKeyMultiSig) bool {
 	}
 	_, ok := rec(1, pk)
 	return ok
+}
+
+// c03FeeClass: the fee-table name and base fee of a message, keyed by its Go type (not by Msg.Type() / Msg.GetFee(),
+// which are part of what is judged). The base amounts are read from the tables the application installs.
+func c03FeeClass(msg sdk.Msg) (string, int64) {
+	switch msg.(type) {
+	case postypes.MsgSend:
+		return "send", simPosFees["send"]
+	case postypes.MsgStake:
+		return "stake_validator", simPosFees["stake_validator"]
+	case postypes.MsgBeginUnstake:
+		return "begin_unstaking_validator", simPosFees["begin_unstaking_validator"]
+	case postypes.MsgUnjail:
+		return "unjail", simPosFees["unjail"]
+	case govtypes.MsgChangeParam:
+		return "change_param", govtypes.GovFeeMap["change_param"]
+	case govtypes.MsgDAOTransfer:
+		return "dao_tranfer", govtypes.GovFeeMap["dao_tranfer"]
+	case govtypes.MsgUpgrade:
+		return "upgrade", govtypes.GovFeeMap["upgrade"]
+	case MsgTestAward:
+		return "test_award", vhookFeeAwd
+	case MsgTestBurn:
+		return "test_burn", vhookFeeBurn
+	}
+	return "", 0
 }
 
 // anteModel decides from the statement whether the transaction must be accepted by the ante handler.
@@ -119,25 +148,17 @@ func (ch *chain) anteModel(before *chainView, txBytes []byte, bt *builtTx) anteD
 	// default multiplier), computed here independently of FeeMultipliers.GetFee
 	fm := ch.feeMultipliers(before)
 	mult := fm.Default
+	typeName, base := c03FeeClass(std.Msg)
 	for _, e := range fm.FeeMultis {
-		if e.Key == std.Msg.Type() {
+		if e.Key == typeName {
 			mult = e.Multiplier
 			break
 		}
 	}
-	required := std.Msg.GetFee().Mul(sdk.NewInt(mult))
-	if required.IsPositive() && d.fee.LT(required) {
+	required := new(big.Int).Mul(big.NewInt(base), big.NewInt(mult))
+	if required.Sign() > 0 && d.fee.BigInt().Cmp(required) < 0 {
 		d.reason = fmt.Sprintf("fee %s below the required %s", d.fee, required)
 		return d
-	}
-	for _, c := range std.Fee {
-		if c.Denom != sdk.DefaultStakeDenom {
-			// a fee in another denomination does not pay the required stake-denominated fee
-			if required.IsPositive() && d.fee.LT(required) {
-				d.reason = "fee in a foreign denomination"
-				return d
-			}
-		}
 	}
 	if mk, ok := pk.(crypto.PublicKeyMultiSig); ok && !sigDepthOK(sigLimit, mk) {
 		d.reason = "too many signatures"
@@ -238,14 +259,41 @@ func (o *c03Oracle) after(ch *chain, ci *callInfo) *Violation {
 	if !signerIsCollector && !collectorDelta.Equal(d.fee) && !c03CollectorTouched(ci, feeAddr) {
 		return violf("C03/fee-not-collected", "%s: the transaction must pass the ante handler but the fee collector changed by %s instead of the fee %s (code %d %s)", where, collectorDelta, d.fee, ci.Deliver.Code, firstLines(ci.Deliver.Log, 2))
 	}
-	// nobody but the signer pays: with a handler failure, the only change is signer -fee, collector +fee
-	if ci.Deliver.Code != 0 {
-		for _, k := range rawDiffKeys(before, after) {
-			isSigner := k[0] == ch.app.keyAuth.Name() && k[1] == string(append([]byte{0x01}, d.signer...))
-			isCollector := k[0] == ch.app.keyAuth.Name() && k[1] == string(append([]byte{0x01}, feeAddr...))
-			if !isSigner && !isCollector {
-				return nil // handler-level effects of a failed message are C11's subject
+	// ... taken from the signer's own balance: the signer's balance moves by -fee plus what the message itself
+	// moves (known from the message that was built), and nobody else's balance falls unless the message says so
+	if signerIsCollector || ci.Built == nil || ci.Built.Msg == nil || ci.Built.Replayed {
+		return nil
+	}
+	signerHex := hex.EncodeToString(d.signer)
+	wantSigner := new(big.Int).Neg(d.fee.BigInt())
+	mayFall := map[string]bool{signerHex: true}
+	if ci.Deliver.Code == 0 {
+		amt := ci.Built.Amount.BigInt()
+		toHex := hex.EncodeToString(ci.Built.To)
+		switch m := ci.Built.Msg.(type) {
+		case postypes.MsgSend:
+			if toHex != signerHex {
+				wantSigner.Sub(wantSigner, amt)
 			}
+		case postypes.MsgStake:
+			wantSigner.Sub(wantSigner, amt)
+		case govtypes.MsgDAOTransfer:
+			mayFall[hex.EncodeToString(authtypes.NewModuleAddress(govtypes.DAOAccountName))] = true
+			if m.Action == "dao_transfer" && toHex == signerHex {
+				wantSigner.Add(wantSigner, amt)
+			}
+		}
+	}
+	gotSigner := new(big.Int).Sub(after.coinsOf(d.signer).BigInt(), before.coinsOf(d.signer).BigInt())
+	if gotSigner.Cmp(wantSigner) != 0 {
+		return violf("C03/fee-not-from-signer", "%s: accepted %s tx (code %d) with fee %s: the signer's balance changed by %s, expected %s", where, ci.Tx.Kind, ci.Deliver.Code, d.fee, gotSigner, wantSigner)
+	}
+	for a, bc := range before.Accounts {
+		if mayFall[a] || a == hex.EncodeToString(feeAddr) {
+			continue
+		}
+		if after.Accounts[a].AmountOf(sdk.DefaultStakeDenom).LT(bc.AmountOf(sdk.DefaultStakeDenom)) {
+			return violf("C03/fee-not-from-signer", "%s: accepted %s tx signed by %s lowered the balance of %s from %s to %s", where, ci.Tx.Kind, signerHex, a, bc, after.Accounts[a])
 		}
 	}
 	return nil
@@ -263,7 +311,7 @@ func keyKind(ch *chain, ci *callInfo) string {
 	return ch.pool[ci.Built.SignKey].Kind
 }
 
-var c03Mutations = []string{"chainid", "amount", "fee", "feedown", "memo", "entropy", "sigflip", "sigtrunc", "sigext", "swapkey"}
+var c03Mutations = []string{"chainid", "amount", "msgfield", "msgfield", "fee", "feedown", "memo", "entropy", "sigflip", "sigtrunc", "sigext", "swapkey"}
 
 func genC03(t *rapid.T, tier string) interface{} {
 	pr := &histProfile{OwnerBias: 2, MaxBlocks: 6, MinBlocksOf: []int{1, 3}, MaxTxs: 10, Evidence: 0, Missed: 0, Restart: 0,
